@@ -248,19 +248,21 @@ C22Step(m, e) ==
 \* rejection so that a known finding is matched only through the defect it names.
 Code == INSTANCE CodeRx
 \* is this recorded receive step what the code model (ideal receive design + recorded findings) predicts?
-StepExplained(e, acceptor) ==
+StepExplained(e, acceptor, ignoreGap) ==
     IF ~(e.e = "Recv" /\ e.in # <<>> /\ e.in[1].valid /\ ~e.pre.shutdown) THEN TRUE
     ELSE LET i == e.in[1]
              kind == IF i.type = "A" THEN "logon" ELSE IF i.type = "4" THEN "gap" ELSE IF i.type = "5" THEN "logout"
                      ELSE IF i.type \in Admin THEN "adm" ELSE "app"
              \* an acceptor recovers its numbers from the control record while it handles the Logon
              nr0 == IF acceptor /\ kind = "logon" THEN (IF e.pre.ctrl # <<>> THEN e.pre.ctrl[2] ELSE 1) ELSE e.pre.nr
-             y == Code!Step([nr |-> nr0, cont |-> e.pre.st = 1, est |-> e.pre.st \notin {0, 3, 4, 5}], [seq |-> i.seq, kind |-> kind, dup |-> i.possdup, newseq |-> i.newseq])
+             y == Code!Step([nr |-> nr0, cont |-> e.pre.st = 1, est |-> e.pre.st \notin {0, 3, 4, 5}, ignoreLogonGap |-> ignoreGap], [seq |-> i.seq, kind |-> kind, dup |-> i.possdup, newseq |-> i.newseq])
              sentRR == \E k \in DOMAIN e.out : e.out[k].type = "2"
          IN /\ y.dead = e.post.shutdown
             /\ (~y.dead => e.post.nr = y.nr)
             /\ (y.deliver <=> e.delivered # <<>>)
             /\ (~y.dead => (y.rr <=> sentRR))
+            \* the request the code sends asks for everything from the expected number on
+            /\ (sentRR => \A k \in DOMAIN e.out : e.out[k].type = "2" => (e.out[k].begin = nr0 /\ e.out[k].end = 0))
 
 DevLabels == <<"incr_on_out_of_seq", "logon_gap_terminated", "high_outside_continuous_terminated", "seqreset_below_expected_terminated", "UNEXPLAINED_STEP">>
 LabelsOf(e) ==
@@ -287,7 +289,7 @@ C20Step(m, e) ==
                                                    sig |-> "expected_mismatch:after:" \o TaintSig(m.taint), m |-> m]
         ELSE [ok |-> TRUE, why |-> "", sig |-> "", m |-> m]
     ELSE IF ~Has(e, "post") THEN [ok |-> TRUE, why |-> "", sig |-> "", m |-> m]
-    ELSE LET t2 == m.taint \cup LabelsOf(e) \cup (IF StepExplained(e, FALSE) THEN {} ELSE {"UNEXPLAINED_STEP"})
+    ELSE LET t2 == m.taint \cup LabelsOf(e) \cup (IF StepExplained(e, FALSE, Get(m.cfg, "ignore_logon_gap", FALSE)) THEN {} ELSE {"UNEXPLAINED_STEP"})
              m2 == [m EXCEPT !.taint = t2, !.deliv = @ \cup {e.delivered[k].id : k \in DOMAIN e.delivered}]
          IN IF e.post.shutdown /\ ~e.pre.shutdown /\ e.e \in {"Recv", "Start"}
             THEN [ok |-> FALSE, why |-> "session_terminated_with_conformant_counterparty",
@@ -317,7 +319,7 @@ C21Step(m, e) ==
            ELSE [ok |-> TRUE, why |-> "", sig |-> "", m |-> m]
     ELSE IF ~Has(e, "post") THEN [ok |-> TRUE, why |-> "", sig |-> "", m |-> m]
     ELSE LET w == e.w
-             t2 == m.taint \cup LabelsOf(e) \cup (IF StepExplained(e, w = "b") THEN {} ELSE {"UNEXPLAINED_STEP"})
+             t2 == m.taint \cup LabelsOf(e) \cup (IF StepExplained(e, w = "b", FALSE) THEN {} ELSE {"UNEXPLAINED_STEP"})
              newsent == {e.out[k].id : k \in {j \in DOMAIN e.out : IsNew(e.out[j]) /\ IsApp(e.out[j])}}
              wd == WalkDeliv(e.delivered, 1, m.delivAt[w], m.maxFirst[w])
              m2 == [m EXCEPT !.taint = t2, !.sentBy[w] = @ \cup newsent, !.delivAt[w] = wd.have, !.maxFirst[w] = wd.mx]
